@@ -4,16 +4,20 @@
   Statements are about `convertOne` (one sample of `units.convert_flux`) and `convertFlux`
   (arrays), for every ordered field `K` (hence ℝ), every lawful family of transcendental
   functions (`Lemmas/TranscReal.lean` shows the real ones are lawful), all positive
-  constants, wavelengths, areas × widths and Vega fluxes.
+  constants, wavelengths, areas × widths and Vega fluxes.  The second half ("deepening") adds
+  the closed forms as conversions, linearity / monotonicity, the error classes, the count
+  factors (positivity, reversal), the array form of the round trip / path independence /
+  reversal, and the unit-name table; helper lemmas are in `Lemmas/C01x.lean`.
 -/
 import Synphot.Lemmas.Units
 import Synphot.Lemmas.Binning
+import Synphot.Lemmas.C01x
 
 set_option linter.unusedSectionVars false
 set_option linter.unusedVariables false
 
 namespace Synphot.C01
-open Synphot
+open Synphot Synphot.C01x
 variable {K : Type} [Field K] [LinearOrder K] [IsStrictOrderedRing K]
 variable {P : PhysConst K} {T : Transc K} {s : Samp K}
 
@@ -182,5 +186,729 @@ theorem convertFlux_no_vega (a b : FluxUnit K) (hab : a ≠ b) (area : Option K)
     refine ⟨e, ?_⟩
     simp only [bind, Except.bind, mkSamples, convertAll, Option.bind_none] at he ⊢
     rw [he]
+
+/-! ## deepening: the PHOTLAM hub, more closed forms -/
+
+/-- converting from PHOTLAM is the "PHOTLAM → unit" leg, converting to PHOTLAM the "unit → PHOTLAM"
+leg: the `_def` theorems above are statements about `convert_flux` itself -/
+theorem photlam_hub (u : FluxUnit K) (hu : u ≠ .photlam) (x : K) :
+    convertOne P T s .photlam u x = ofPhotlam P T s u x ∧
+    convertOne P T s u .photlam x = toPhotlam P T s u x := by
+  constructor
+  · unfold convertOne; rw [if_neg (Ne.symm hu)]; rfl
+  · unfold convertOne; rw [if_neg hu]
+    cases toPhotlam P T s u x <;> rfl
+
+/-- FNU = PHOTLAM · hλ (the photon energy `hc/λ` times `λ²/c`) -/
+theorem fnu_closed (hP : P.Pos) (hs : s.Pos) (p : K) :
+    ofPhotlam P T s .fnu p = .ok (p * P.h * s.lam) := by
+  have hc := ne_of_gt hP.c; have hl := ne_of_gt hs.lam
+  simp only [ofPhotlam]; congr 1; field_simp
+
+/-- `F_ν = F_λ λ²/c` as a conversion: FLAM → FNU -/
+theorem flam_to_fnu (hP : P.Pos) (hs : s.Pos) (f : K) :
+    convertOne P T s .flam .fnu f = .ok (f * s.lam ^ 2 / P.c) := by
+  have hh := ne_of_gt hP.h; have hc := ne_of_gt hP.c; have hl := ne_of_gt hs.lam
+  simp only [convertOne, toPhotlam, ofPhotlam, reduceCtorEq, if_false, bind, Except.bind]
+  congr 1; field_simp
+
+/-- the photon energy as a conversion: PHOTNU → FNU multiplies by `hc/λ`, like PHOTLAM → FLAM -/
+theorem photnu_to_fnu (hP : P.Pos) (hs : s.Pos) (f : K) :
+    convertOne P T s .photnu .fnu f = .ok (f * (P.h * P.c) / s.lam) := by
+  have hh := ne_of_gt hP.h; have hc := ne_of_gt hP.c; have hl := ne_of_gt hs.lam
+  simp only [convertOne, toPhotlam, ofPhotlam, reduceCtorEq, if_false, bind, Except.bind]
+  congr 1; field_simp
+
+/-- Jansky: PHOTLAM → (prefixed) Jy is the FNU value divided by the scale of the unit in FNU -/
+theorem jy_def (k p : K) :
+    ofPhotlam P T s (.jy k) p = .ok (p * (P.h * P.c) / s.lam * s.lam ^ 2 / P.c / (k * P.jyFnu)) := rfl
+
+/-- the Jansky scale as a conversion: FNU → k·Jy divides by `k · 1e-23`, and back multiplies -/
+theorem fnu_jy_scale (hP : P.Pos) (hs : s.Pos) (k : K) (hk : 0 < k) (f : K) :
+    convertOne P T s .fnu (.jy k) f = .ok (f / (k * P.jyFnu)) ∧
+    convertOne P T s (.jy k) .fnu f = .ok (f * (k * P.jyFnu)) := by
+  have hh := ne_of_gt hP.h; have hc := ne_of_gt hP.c; have hl := ne_of_gt hs.lam
+  have hj := ne_of_gt hP.jy; have hk' := ne_of_gt hk
+  constructor
+  · simp only [convertOne, toPhotlam, ofPhotlam, reduceCtorEq, if_false, bind, Except.bind]
+    congr 1; field_simp
+  · simp only [convertOne, toPhotlam, ofPhotlam, reduceCtorEq, if_false, bind, Except.bind]
+    congr 1; field_simp
+
+/-- STmag = −2.5 log₁₀ F_λ − zp as a conversion from FLAM, for the zero point `10^(−0.4·zp)`
+(zp = 21.10) -/
+theorem flam_to_stmag (hP : P.Pos) (hT : T.Lawful) (hs : s.Pos) (zp : K)
+    (hzp : P.stZero = T.pow10 (-(2/5) * zp)) (f : K) (hf : 0 < f) :
+    convertOne P T s .flam .stmag f = .ok (-(5/2) * T.log10 f - zp) := by
+  have hh := ne_of_gt hP.h; have hc := ne_of_gt hP.c; have hl := ne_of_gt hs.lam
+  have hz := hP.st
+  simp only [convertOne, toPhotlam, ofPhotlam, reduceCtorEq, if_false, bind, Except.bind]
+  have e : f * s.lam / (P.h * P.c) * (P.h * P.c) / s.lam / P.stZero = f / P.stZero := by field_simp
+  rw [toMag_congr e, toMag_pos (div_pos hf hz), hzp, mag_zero_point hT f zp hf]
+
+/-- ABmag = −2.5 log₁₀ F_ν − zp as a conversion from FNU (zp = 48.60) -/
+theorem fnu_to_abmag (hP : P.Pos) (hT : T.Lawful) (hs : s.Pos) (zp : K)
+    (hzp : P.abZero = T.pow10 (-(2/5) * zp)) (f : K) (hf : 0 < f) :
+    convertOne P T s .fnu .abmag f = .ok (-(5/2) * T.log10 f - zp) := by
+  have hh := ne_of_gt hP.h; have hc := ne_of_gt hP.c; have hl := ne_of_gt hs.lam
+  have hz := hP.ab
+  simp only [convertOne, toPhotlam, ofPhotlam, reduceCtorEq, if_false, bind, Except.bind]
+  have e : f * P.c / s.lam ^ 2 * s.lam / (P.h * P.c) * (P.h * P.c) / s.lam * s.lam ^ 2 / P.c / P.abZero
+      = f / P.abZero := by field_simp
+  rw [toMag_congr e, toMag_pos (div_pos hf hz), hzp, mag_zero_point hT f zp hf]
+
+/-- OBMAG = −2.5 log₁₀(count) as a conversion from count -/
+theorem count_to_obmag (hs : s.Pos) (w : K) (hw : s.countFactor = some w) (n : K) (hn : 0 < n) :
+    convertOne P T s .count .obmag n = .ok (-(5/2) * T.log10 n) := by
+  have hw0 := ne_of_gt (hs.cf w hw)
+  simp only [convertOne, toPhotlam, ofPhotlam, hw, reduceCtorEq, if_false, bind, Except.bind]
+  have e : n / w * w = n := by field_simp
+  rw [toMag_congr e, toMag_pos hn]
+
+/-- Vega itself has VEGAMAG 0 at every wavelength -/
+theorem vega_has_vegamag_zero (hT : T.Lawful) (hs : s.Pos) (v : K) (hv : s.vega = some v) :
+    convertOne P T s .photlam .vegamag v = .ok 0 := by
+  have hv0 := hs.vega v hv
+  simp only [convertOne, toPhotlam, ofPhotlam, hv, reduceCtorEq, if_false, bind, Except.bind]
+  rw [toMag_congr (div_self (ne_of_gt hv0)), toMag_pos one_pos, hT.log10_one, mul_zero]
+
+/-! ## deepening: linearity and monotonicity -/
+
+/-- between two linear (non-magnitude) units the conversion is multiplication by one positive
+factor (which depends on the wavelength, the constants and — for count — the bin width × area) -/
+theorem linear_units_scale (hP : P.Pos) (hT : T.Lawful) (hs : s.Pos) (a b : FluxUnit K)
+    (ha : a.Pos) (hb : b.Pos) (ham : a.isMag = false) (hbm : b.isMag = false) {f0 y0 : K}
+    (h0 : convertOne P T s a b f0 = .ok y0) :
+    ∃ k, 0 < k ∧ ∀ f, convertOne P T s a b f = .ok (k * f) := by
+  by_cases hab : a = b
+  · subst hab
+    exact ⟨1, one_pos, fun f => by unfold convertOne; rw [if_pos rfl, one_mul]⟩
+  · obtain ⟨ka, kb, hka, hkb⟩ := convertOne_ok_factors hab h0
+    refine ⟨ka / kb, div_pos (unitFactor_pos hP hs a ha hka) (unitFactor_pos hP hs b hb hkb), fun f => ?_⟩
+    rw [convertOne_factor hP hT hs a b ha hb hka hkb f]
+    simp only [hbm, Bool.false_eq_true, if_false, linVal, ham, mul_comm]
+
+/-- linearity in the flux: a linear combination converts to the same linear combination -/
+theorem convert_linear (hP : P.Pos) (hT : T.Lawful) (hs : s.Pos) (a b : FluxUnit K)
+    (ha : a.Pos) (hb : b.Pos) (ham : a.isMag = false) (hbm : b.isMag = false) {f g y z : K} (α β : K)
+    (h1 : convertOne P T s a b f = .ok y) (h2 : convertOne P T s a b g = .ok z) :
+    convertOne P T s a b (α * f + β * g) = .ok (α * y + β * z) := by
+  obtain ⟨k, _, hk⟩ := linear_units_scale hP hT hs a b ha hb ham hbm h1
+  rw [hk] at h1 h2; injection h1 with h1; injection h2 with h2
+  rw [hk, ← h1, ← h2]; congr 1; ring
+
+/-- and it is strictly increasing: more flux in one linear unit is more flux in every linear unit -/
+theorem convert_linear_strictMono (hP : P.Pos) (hT : T.Lawful) (hs : s.Pos) (a b : FluxUnit K)
+    (ha : a.Pos) (hb : b.Pos) (ham : a.isMag = false) (hbm : b.isMag = false) {f g y z : K}
+    (hfg : f < g) (h1 : convertOne P T s a b f = .ok y) (h2 : convertOne P T s a b g = .ok z) :
+    y < z := by
+  obtain ⟨k, hk0, hk⟩ := linear_units_scale hP hT hs a b ha hb ham hbm h1
+  rw [hk] at h1 h2; injection h1 with h1; injection h2 with h2
+  rw [← h1, ← h2]; exact mul_lt_mul_of_pos_left hfg hk0
+
+/-- brighter ⇒ smaller magnitude: from a linear unit to a magnitude unit the conversion is strictly
+decreasing.  `LogMono T` (log₁₀ strictly increasing on the positive numbers) is an extra hypothesis:
+it holds of the real logarithm (`logMono_real`) but does not follow from the algebraic laws of
+`Transc.Lawful`. -/
+theorem brighter_smaller_mag (hP : P.Pos) (hT : T.Lawful) (hm : LogMono T) (hs : s.Pos)
+    (a b : FluxUnit K) (ha : a.Pos) (hb : b.Pos) (ham : a.isMag = false) (hbm : b.isMag = true)
+    {f g m1 m2 : K} (hfg : f < g) (h1 : convertOne P T s a b f = .ok m1)
+    (h2 : convertOne P T s a b g = .ok m2) : m2 < m1 := by
+  have hab : a ≠ b := by rintro rfl; rw [ham] at hbm; cases hbm
+  obtain ⟨ka, kb, hka, hkb⟩ := convertOne_ok_factors hab h1
+  have hr : 0 < ka / kb := div_pos (unitFactor_pos hP hs a ha hka) (unitFactor_pos hP hs b hb hkb)
+  rw [convertOne_factor hP hT hs a b ha hb hka hkb] at h1 h2
+  simp only [hbm, if_true, linVal, ham, Bool.false_eq_true, if_false] at h1 h2
+  exact toMag_strictAnti hm (mul_lt_mul_of_pos_right hfg hr) h1 h2
+
+/-- the other direction: a larger magnitude is a smaller flux in every linear unit -/
+theorem larger_mag_fainter (hP : P.Pos) (hT : T.Lawful) (hm : LogMono T) (hs : s.Pos)
+    (a b : FluxUnit K) (ha : a.Pos) (hb : b.Pos) (ham : a.isMag = true) (hbm : b.isMag = false)
+    {m1 m2 y1 y2 : K} (hmm : m1 < m2) (h1 : convertOne P T s a b m1 = .ok y1)
+    (h2 : convertOne P T s a b m2 = .ok y2) : y2 < y1 := by
+  have hab : a ≠ b := by rintro rfl; rw [ham] at hbm; cases hbm
+  obtain ⟨ka, kb, hka, hkb⟩ := convertOne_ok_factors hab h1
+  have hr : 0 < ka / kb := div_pos (unitFactor_pos hP hs a ha hka) (unitFactor_pos hP hs b hb hkb)
+  rw [convertOne_factor hP hT hs a b ha hb hka hkb] at h1 h2
+  simp only [hbm, Bool.false_eq_true, if_false, linVal, ham, if_true] at h1 h2
+  injection h1 with h1; injection h2 with h2
+  rw [← h1, ← h2]; exact mul_lt_mul_of_pos_right (ofMag_strictAnti hT hm hmm) hr
+
+/-- at ℝ with the real functions no extra hypothesis is left: brighter ⇒ smaller magnitude -/
+theorem brighter_smaller_mag_real {P : PhysConst ℝ} {s : Samp ℝ} (hP : P.Pos) (hs : s.Pos)
+    (a b : FluxUnit ℝ) (ha : a.Pos) (hb : b.Pos) (ham : a.isMag = false) (hbm : b.isMag = true)
+    {f g m1 m2 : ℝ} (hfg : f < g) (h1 : convertOne P Transc.real s a b f = .ok m1)
+    (h2 : convertOne P Transc.real s a b g = .ok m2) : m2 < m1 :=
+  brighter_smaller_mag hP Transc.real_lawful logMono_real hs a b ha hb ham hbm hfg h1 h2
+
+/-- and a larger magnitude is a smaller flux -/
+theorem larger_mag_fainter_real {P : PhysConst ℝ} {s : Samp ℝ} (hP : P.Pos) (hs : s.Pos)
+    (a b : FluxUnit ℝ) (ha : a.Pos) (hb : b.Pos) (ham : a.isMag = true) (hbm : b.isMag = false)
+    {m1 m2 y1 y2 : ℝ} (hmm : m1 < m2) (h1 : convertOne P Transc.real s a b m1 = .ok y1)
+    (h2 : convertOne P Transc.real s a b m2 = .ok y2) : y2 < y1 :=
+  larger_mag_fainter hP Transc.real_lawful logMono_real hs a b ha hb ham hbm hmm h1 h2
+
+/-- between two magnitude systems the conversion adds a constant (at a given wavelength): in
+particular it is strictly increasing and differences of magnitudes are the same in every system -/
+theorem mag_to_mag_offset (hP : P.Pos) (hT : T.Lawful) (hs : s.Pos) (a b : FluxUnit K)
+    (ha : a.Pos) (hb : b.Pos) (ham : a.isMag = true) (hbm : b.isMag = true) {m0 y0 : K}
+    (h0 : convertOne P T s a b m0 = .ok y0) :
+    ∃ d, ∀ m, convertOne P T s a b m = .ok (m + d) := by
+  by_cases hab : a = b
+  · subst hab
+    exact ⟨0, fun m => by unfold convertOne; rw [if_pos rfl, add_zero]⟩
+  · obtain ⟨ka, kb, hka, hkb⟩ := convertOne_ok_factors hab h0
+    have hr : 0 < ka / kb := div_pos (unitFactor_pos hP hs a ha hka) (unitFactor_pos hP hs b hb hkb)
+    refine ⟨-(5/2) * T.log10 (ka / kb), fun m => ?_⟩
+    rw [convertOne_factor hP hT hs a b ha hb hka hkb m]
+    simp only [hbm, if_true, linVal, ham]
+    exact toMag_ofMag_mul hT m _ hr
+
+/-- scaling a flux by `k > 0` shifts every magnitude of it by `−2.5 log₁₀ k` -/
+theorem flux_scale_shifts_mag (hP : P.Pos) (hT : T.Lawful) (hs : s.Pos) (a b : FluxUnit K)
+    (ha : a.Pos) (hb : b.Pos) (ham : a.isMag = false) (hbm : b.isMag = true) {f m k : K} (hk : 0 < k)
+    (h : convertOne P T s a b f = .ok m) :
+    convertOne P T s a b (k * f) = .ok (m + -(5/2) * T.log10 k) := by
+  have hab : a ≠ b := by rintro rfl; rw [ham] at hbm; cases hbm
+  obtain ⟨ka, kb, hka, hkb⟩ := convertOne_ok_factors hab h
+  rw [convertOne_factor hP hT hs a b ha hb hka hkb] at h ⊢
+  simp only [hbm, if_true, linVal, ham, Bool.false_eq_true, if_false] at h ⊢
+  rw [mul_assoc]; exact toMag_mul hT hk h
+
+/-! ## deepening: the same-unit shortcut and the error class of missing inputs -/
+
+/-- identical units: the input is returned untouched, whatever else is (not) supplied -/
+theorem same_unit_identity (a : FluxUnit K) (f : K) : convertOne P T s a a f = .ok f := by
+  unfold convertOne; rw [if_pos rfl]
+
+/-- array form: no wavelength validation, no area, no Vega spectrum is looked at -/
+theorem convertFlux_same_unit (a : FluxUnit K) (w f : List K) (area : Option K) (vega : Option (List K)) :
+    convertFlux P T w f a a area vega = .ok f := by
+  unfold convertFlux; rw [if_pos rfl]
+
+/-- the missing area is reported as `SynphotError` — by no other exception and never as a number -/
+theorem needs_area_synphotError (a b : FluxUnit K) (hab : a ≠ b) (hs : s.countFactor = none)
+    (hn : a.needsArea = true ∨ b.needsArea = true) (f : K) :
+    convertOne P T s a b f = .error .synphotError := by
+  unfold convertOne; rw [if_neg hab]
+  cases hka : unitFactor P s a with
+  | none => rw [(unitFactor_none (T := T) a hka f).1]; rfl
+  | some ka =>
+    rw [toPhotlam_factor a hka f]
+    have hkb : unitFactor P s b = none := by
+      rcases hn with hn | hn
+      · have : unitFactor P s a = none := (unitFactor_none_iff a).mpr (Or.inl ⟨hn, hs⟩)
+        rw [this] at hka; cases hka
+      · exact (unitFactor_none_iff b).mpr (Or.inl ⟨hn, hs⟩)
+    exact (unitFactor_none (T := T) b hkb _).2
+
+/-- the missing Vega spectrum likewise -/
+theorem needs_vega_synphotError (a b : FluxUnit K) (hab : a ≠ b) (hs : s.vega = none)
+    (hn : a.needsVega = true ∨ b.needsVega = true) (f : K) :
+    convertOne P T s a b f = .error .synphotError := by
+  unfold convertOne; rw [if_neg hab]
+  cases hka : unitFactor P s a with
+  | none => rw [(unitFactor_none (T := T) a hka f).1]; rfl
+  | some ka =>
+    rw [toPhotlam_factor a hka f]
+    have hkb : unitFactor P s b = none := by
+      rcases hn with hn | hn
+      · have : unitFactor P s a = none := (unitFactor_none_iff a).mpr (Or.inr ⟨hn, hs⟩)
+        rw [this] at hka; cases hka
+      · exact (unitFactor_none_iff b).mpr (Or.inr ⟨hn, hs⟩)
+    exact (unitFactor_none (T := T) b hkb _).2
+
+set_option linter.unnecessarySeqFocus false in
+/-- conversely the only exceptions one sample can raise are `SynphotError` (missing input) and the
+NaN of a magnitude of a non-positive flux -/
+theorem convertOne_errors (a b : FluxUnit K) (f : K) (e : Err)
+    (h : convertOne P T s a b f = .error e) : e = .synphotError ∨ (e = .nan ∧ b.isMag = true) := by
+  unfold convertOne at h
+  split_ifs at h with hab
+  cases hp : toPhotlam P T s a f with
+  | error e' =>
+    rw [hp] at h; injection h with h; subst h
+    left
+    cases a <;> simp only [toPhotlam] at hp <;> first
+      | (cases hp)
+      | (cases hc : s.countFactor <;> rw [hc] at hp <;> cases hp <;> rfl)
+      | (cases hc : s.vega <;> rw [hc] at hp <;> cases hp <;> rfl)
+  | ok p =>
+    rw [hp] at h
+    replace h : ofPhotlam P T s b p = .error e := h
+    have htm : ∀ x, toMag T x = .error e → e = .nan := by
+      intro x hx; unfold toMag at hx; split_ifs at hx; injection hx with hx; exact hx.symm
+    cases b <;> simp only [ofPhotlam] at h <;> first
+      | (cases h)
+      | (exact Or.inr ⟨htm _ h, rfl⟩)
+      | (cases hc : s.countFactor <;> rw [hc] at h <;> first
+          | (injection h with h; exact Or.inl h.symm) | (cases h) | (exact Or.inr ⟨htm _ h, rfl⟩))
+      | (cases hc : s.vega <;> rw [hc] at h <;> first
+          | (injection h with h; exact Or.inl h.symm) | (exact Or.inr ⟨htm _ h, rfl⟩))
+
+/-! ## deepening: count factors -/
+
+/-- `spectral_density_count` returns factors exactly for at least two valid wavelengths
+(positive, strictly monotone in either direction) -/
+theorem countFactors_ok_iff (w : List K) (area : K) :
+    (∃ cf, countFactors w area = .ok cf) ↔ (2 ≤ w.length ∧ validateWavelengths w = .ok ()) := by
+  constructor
+  · rintro ⟨cf, h⟩
+    obtain ⟨h2, hv, _⟩ := countFactors_ok h
+    exact ⟨h2, hv⟩
+  · rintro ⟨h2, hv⟩
+    obtain ⟨e, he⟩ := (binEdges_ok_iff w).mpr h2
+    have hl := C01x.binEdges_length w e he
+    have hbw : binWidths e = .ok (absDiffs e) := by unfold binWidths; rw [if_neg (by omega)]
+    exact ⟨_, countFactors_def w e _ area hv he hbw⟩
+
+/-- one factor per wavelength -/
+theorem countFactors_length (w cf : List K) (area : K) (h : countFactors w area = .ok cf) :
+    cf.length = w.length := by
+  obtain ⟨h2, _, e, he, rfl⟩ := countFactors_ok h
+  rw [List.length_map, absDiffs_length, C01x.binEdges_length w e he]; omega
+
+/-- the factors (bin width × area) are positive for every validated wavelength array, ascending
+or descending, and every positive area -/
+theorem countFactors_pos (w cf : List K) (area : K) (harea : 0 < area)
+    (h : countFactors w area = .ok cf) : ∀ x ∈ cf, 0 < x := by
+  obtain ⟨h2, hv, e, he, rfl⟩ := countFactors_ok h
+  have hmono := ((validate_ok_iff w).mp hv).2
+  intro x hx
+  rw [List.mem_map] at hx
+  obtain ⟨d, hd, rfl⟩ := hx
+  have hdpos : 0 < d := by
+    rcases hmono with hc | hc
+    · exact absDiffs_pos_of_strictAsc e (binEdges_strictAsc w e hc he) d hd
+    · exact absDiffs_pos_of_strictDesc e (binEdges_strictDesc w e hc he) d hd
+  exact mul_pos hdpos harea
+
+/-- order-equivariance: the reversed wavelengths get the reversed factors (same bins), and fail
+exactly when the original fails, with the same exception -/
+theorem countFactors_reverse (w : List K) (area : K) :
+    countFactors w.reverse area = (countFactors w area).map List.reverse :=
+  countFactors_rev w area
+
+/-- the factors scale with the area -/
+theorem countFactors_area (w cf : List K) (area k : K) (h : countFactors w area = .ok cf) :
+    countFactors w (k * area) = .ok (cf.map (k * ·)) := by
+  obtain ⟨h2, hv, e, he, rfl⟩ := countFactors_ok h
+  have hl := C01x.binEdges_length w e he
+  have hbw : binWidths e = .ok (absDiffs e) := by unfold binWidths; rw [if_neg (by omega)]
+  rw [countFactors_def w e _ (k * area) hv he hbw, List.map_map]
+  congr 1
+  apply List.map_congr_left
+  intro d _; simp only [Function.comp]; ring
+
+/-! ## deepening: the array form -/
+
+/-- the positivity the array theorems assume of the inputs: positive wavelengths, area and Vega fluxes -/
+structure InputsPos (w : List K) (area : Option K) (vega : Option (List K)) : Prop where
+  wave : ∀ x ∈ w, 0 < x
+  area : ∀ A, area = some A → 0 < A
+  vega : ∀ l, vega = some l → ∀ x ∈ l, 0 < x
+
+theorem samples_pos {w : List K} {area : Option K} {vega : Option (List K)} (hi : InputsPos w area vega)
+    {a b : FluxUnit K} {cf : Option (List K)} (hcf : countFactorsFor w a b area = .ok cf) :
+    ∀ s ∈ mkSamples w cf vega, s.Pos := by
+  apply mkSamples_pos w cf vega hi.wave _ hi.vega
+  intro l hl
+  rcases countFactorsFor_ok hcf with ⟨h, _⟩ | ⟨A, l', hA, _, hc, h⟩
+  · rw [h] at hl; cases hl
+  · rw [h] at hl; injection hl with hl; subst hl
+    exact countFactors_pos w l' A (hi.area A hA) hc
+
+/-- A→B→A is the identity for arrays: `convert_flux(w, convert_flux(w, f, B), A) = f`, with the
+same area and Vega spectrum, whenever the first call returns (all unit pairs; ascending or descending
+wavelengths) -/
+theorem convertFlux_roundtrip (hP : P.Pos) (hT : T.Lawful) (a b : FluxUnit K) (ha : a.Pos) (hb : b.Pos)
+    (w f g : List K) (area : Option K) (vega : Option (List K)) (hi : InputsPos w area vega)
+    (hl : f.length ≤ w.length) (h : convertFlux P T w f a b area vega = .ok g) :
+    convertFlux P T w g b a area vega = .ok f := by
+  unfold convertFlux at h ⊢
+  by_cases hab : a = b
+  · subst hab; rw [if_pos rfl] at h ⊢; injection h with h; subst h; rfl
+  · have hba : ¬ b = a := fun e => hab e.symm
+    rw [if_neg hab] at h; rw [if_neg hba]
+    rw [countFactorsFor_comm w b a]
+    cases hcf : countFactorsFor w a b area with
+    | error e => rw [hcf] at h; cases h
+    | ok cf =>
+      rw [hcf] at h
+      replace h : convertAll P T a b (mkSamples w cf vega) f = .ok g := h
+      show convertAll P T b a (mkSamples w cf vega) g = .ok f
+      have hpos := samples_pos hi hcf
+      have hz := convertAll_chain (P := P) (T := T) (a := a) (b := b) (c := b) (d := a) (e := a) (f' := a)
+        Samp.Pos (fun s x y z hs h1 h2 => by
+          have := convert_roundtrip hP hT hs a b ha hb h1
+          rw [this] at h2; injection h2 with h2; subst h2
+          exact same_unit_identity a x) (mkSamples w cf vega) f g
+      cases hg : convertAll P T b a (mkSamples w cf vega) g with
+      | error e =>
+        -- element by element the way back succeeds
+        exfalso
+        have hlen : g.length = f.length :=
+          convertAll_length _ f g (by rw [mkSamples_length]; exact hl) h
+        have : ∀ (ss : List (Samp K)) (f g : List K), (∀ s ∈ ss, s.Pos) →
+            convertAll P T a b ss f = .ok g → ∃ f', convertAll P T b a ss g = .ok f' := by
+          intro ss
+          induction ss with
+          | nil => intro f g _ _; exact ⟨[], convertAll_nil_left _ _ _⟩
+          | cons s ss ih =>
+            intro f g hp h
+            cases f with
+            | nil =>
+              rw [convertAll_nil_right] at h; injection h with h; subst h
+              exact ⟨[], convertAll_nil_right _ _ _⟩
+            | cons x xs =>
+              obtain ⟨y, ys, h1, h2, rfl⟩ := convertAll_cons_ok h
+              obtain ⟨f', hf'⟩ := ih xs ys (fun s' hs' => hp s' (by simp [hs'])) h2
+              exact ⟨x :: f', convertAll_cons_of
+                (convert_roundtrip hP hT (hp s (by simp)) a b ha hb h1) hf'⟩
+        obtain ⟨f', hf'⟩ := this _ f g hpos h
+        rw [hf'] at hg; cases hg
+      | ok f' =>
+        have h3 := hz f' hpos h hg
+        rw [convertAll_same a _ f (by rw [mkSamples_length]; exact hl)] at h3
+        injection h3 with h3; rw [h3]
+
+/-- A→C→B = A→B for arrays, for every intermediate unit C for which both hops return -/
+theorem convertFlux_path_indep (hP : P.Pos) (hT : T.Lawful) (a b c : FluxUnit K)
+    (ha : a.Pos) (hb : b.Pos) (hc : c.Pos) (w f y z : List K) (area : Option K)
+    (vega : Option (List K)) (hi : InputsPos w area vega) (hl : f.length ≤ w.length)
+    (h1 : convertFlux P T w f a c area vega = .ok y) (h2 : convertFlux P T w y c b area vega = .ok z) :
+    convertFlux P T w f a b area vega = .ok z := by
+  by_cases hac : a = c
+  · subst hac
+    rw [convertFlux_same_unit] at h1; injection h1 with h1; subst h1; exact h2
+  by_cases hcb : c = b
+  · subst hcb
+    rw [convertFlux_same_unit] at h2; injection h2 with h2; subst h2; exact h1
+  by_cases hab : a = b
+  · subst hab
+    rw [convertFlux_roundtrip hP hT a c ha hc w f y area vega hi hl h1] at h2
+    injection h2 with h2; subst h2; exact convertFlux_same_unit a w f area vega
+  unfold convertFlux at h1 h2 ⊢
+  rw [if_neg hac] at h1; rw [if_neg hcb] at h2; rw [if_neg hab]
+  cases hcf1 : countFactorsFor w a c area with
+  | error e => rw [hcf1] at h1; cases h1
+  | ok cf1 =>
+  cases hcf2 : countFactorsFor w c b area with
+  | error e => rw [hcf2] at h2; cases h2
+  | ok cf2 =>
+  rw [hcf1] at h1; rw [hcf2] at h2
+  replace h1 : convertAll P T a c (mkSamples w cf1 vega) f = .ok y := h1
+  replace h2 : convertAll P T c b (mkSamples w cf2 vega) y = .ok z := h2
+  -- the fullest count factors any of the three calls has at hand
+  have key : ∀ cf : Option (List K), (∀ s ∈ mkSamples w cf vega, s.Pos) →
+      convertAll P T a c (mkSamples w cf vega) f = .ok y →
+      convertAll P T c b (mkSamples w cf vega) y = .ok z →
+      convertAll P T a b (mkSamples w cf vega) f = .ok z := fun cf hpos h1 h2 =>
+    convertAll_chain (P := P) (T := T) Samp.Pos
+      (fun s x y z hs h1 h2 => convert_path_indep hP hT hs a b c ha hb hc h1 h2) _ f y z hpos h1 h2
+  have nb : ∀ u : FluxUnit K, u.needsArea = false ∨ u.needsArea = true := fun u => by
+    cases u.needsArea <;> simp
+  -- without an area no call has count factors
+  cases harea : area with
+  | none =>
+    subst harea
+    have e1 : cf1 = none := by
+      rcases countFactorsFor_ok hcf1 with ⟨h, _⟩ | ⟨A, _, hA, _⟩
+      · exact h
+      · cases hA
+    have e2 : cf2 = none := by
+      rcases countFactorsFor_ok hcf2 with ⟨h, _⟩ | ⟨A, _, hA, _⟩
+      · exact h
+      · cases hA
+    have e3 : countFactorsFor w a b (none : Option K) = .ok none := by
+      unfold countFactorsFor; split_ifs <;> rfl
+    subst e1; subst e2
+    rw [e3]
+    exact key none (samples_pos hi hcf1) h1 h2
+  | some A =>
+    subst harea
+    by_cases hany : a.needsArea = true ∨ b.needsArea = true ∨ c.needsArea = true
+    · -- some call computed the factors `l`
+      have hl' : ∃ l, countFactors w A = .ok l := by
+        rcases hany with h | h | h
+        · rcases countFactorsFor_ok hcf1 with ⟨_, h' | h'⟩ | ⟨A', l, hA, _, hc', _⟩
+          · rw [h] at h'; cases h'.1
+          · cases h'
+          · injection hA with hA; subst hA; exact ⟨l, hc'⟩
+        · rcases countFactorsFor_ok hcf2 with ⟨_, h' | h'⟩ | ⟨A', l, hA, _, hc', _⟩
+          · rw [h] at h'; cases h'.2
+          · cases h'
+          · injection hA with hA; subst hA; exact ⟨l, hc'⟩
+        · rcases countFactorsFor_ok hcf1 with ⟨_, h' | h'⟩ | ⟨A', l, hA, _, hc', _⟩
+          · rw [h] at h'; cases h'.2
+          · cases h'
+          · injection hA with hA; subst hA; exact ⟨l, hc'⟩
+      obtain ⟨l, hcl⟩ := hl'
+      have hposl : ∀ s ∈ mkSamples w (some l) vega, s.Pos :=
+        mkSamples_pos w (some l) vega hi.wave
+          (fun l' hl' => by injection hl' with hl'; subst hl'; exact countFactors_pos w l A (hi.area A rfl) hcl)
+          hi.vega
+      -- every call's samples may be replaced by the full ones
+      have full : ∀ (u v : FluxUnit K) (cf : Option (List K)) (x : List K),
+          countFactorsFor w u v (some A) = .ok cf →
+          convertAll P T u v (mkSamples w cf vega) x = convertAll P T u v (mkSamples w (some l) vega) x := by
+        intro u v cf x hcf
+        rcases countFactorsFor_ok hcf with ⟨h, h' | h'⟩ | ⟨A', l', hA, _, hc', h⟩
+        · subst h; exact convertAll_cf_irrel u v h'.1 h'.2 w none (some l) vega x
+        · cases h'
+        · injection hA with hA; subst hA
+          rw [hcl] at hc'; injection hc' with hc'; subst hc'; rw [h]
+      cases hcf3 : countFactorsFor w a b (some A) with
+      | error e =>
+        exfalso
+        unfold countFactorsFor at hcf3
+        split_ifs at hcf3
+        · replace hcf3 : Except.map some (countFactors w A) = .error e := hcf3
+          rw [hcl] at hcf3; cases hcf3
+        · cases hcf3
+      | ok cf3 =>
+        show convertAll P T a b (mkSamples w cf3 vega) f = .ok z
+        rw [full a b cf3 f hcf3]
+        rw [full a c cf1 f hcf1] at h1
+        rw [full c b cf2 y hcf2] at h2
+        exact key (some l) hposl h1 h2
+    · -- no unit needs the area
+      simp only [not_or, Bool.not_eq_true] at hany
+      have e : ∀ u v : FluxUnit K, u.needsArea = false → v.needsArea = false →
+          countFactorsFor w u v (some A) = .ok none := by
+        intro u v hu hv; unfold countFactorsFor; rw [hu, hv]; rfl
+      rw [e a c hany.1 hany.2.2] at hcf1; rw [e c b hany.2.2 hany.2.1] at hcf2
+      injection hcf1 with hcf1; injection hcf2 with hcf2; subst hcf1; subst hcf2
+      rw [e a b hany.1 hany.2.1]
+      exact key none (mkSamples_pos w none vega hi.wave (fun l hl => by cases hl) hi.vega) h1 h2
+
+/-- order-equivariance of the whole conversion: descending wavelengths (with the fluxes and the Vega
+fluxes in the same, reversed order) give the reversed result of the ascending call — count factors,
+Vega ratios and all -/
+theorem convertFlux_reverse (a b : FluxUnit K) (w f g : List K) (area : Option K) (vega : Option (List K))
+    (hl : f.length = w.length) (hvl : ∀ l, vega = some l → l.length = w.length)
+    (h : convertFlux P T w f a b area vega = .ok g) :
+    convertFlux P T w.reverse f.reverse a b area (vega.map List.reverse) = .ok g.reverse := by
+  unfold convertFlux at h ⊢
+  by_cases hab : a = b
+  · rw [if_pos hab] at h ⊢; injection h with h; rw [h]
+  · rw [if_neg hab] at h ⊢
+    rw [countFactorsFor_reverse]
+    cases hcf : countFactorsFor w a b area with
+    | error e => rw [hcf] at h; cases h
+    | ok cf =>
+      rw [hcf] at h
+      replace h : convertAll P T a b (mkSamples w cf vega) f = .ok g := h
+      show convertAll P T a b (mkSamples w.reverse (cf.map List.reverse) (vega.map List.reverse)) f.reverse
+        = .ok g.reverse
+      have hcl : ∀ l, cf = some l → l.length = w.length := by
+        intro l hl'
+        rcases countFactorsFor_ok hcf with ⟨h0, _⟩ | ⟨A, l', _, _, hc, h0⟩
+        · rw [h0] at hl'; cases hl'
+        · rw [h0] at hl'; injection hl' with hl'; subst hl'
+          exact countFactors_length w l' A hc
+      rw [mkSamples_reverse w cf vega hcl hvl]
+      have hlen : f.length = (mkSamples w cf vega).length := by rw [mkSamples_length]; exact hl
+      rw [convertAll_iff_forall₂ a b _ _ _ (by simpa using hlen)]
+      rw [convertAll_iff_forall₂ a b _ _ _ hlen] at h
+      rw [List.zip_eq_zipWith, ← List.reverse_zipWith hlen.symm, ← List.zip_eq_zipWith]
+      exact List.rel_reverse h
+
+
+/-- every element of the result is the one-sample conversion at its own wavelength: any
+element-wise law of `convertOne` (closed forms, linearity, monotonicity) holds along the arrays -/
+theorem convertFlux_elementwise (a b : FluxUnit K) (hab : a ≠ b) (w f g : List K) (area : Option K)
+    (vega : Option (List K)) (hl : f.length ≤ w.length) (R : Samp K → K → K → Prop)
+    (hR : ∀ s x y, convertOne P T s a b x = .ok y → R s x y)
+    (h : convertFlux P T w f a b area vega = .ok g) :
+    g.length = f.length ∧
+    ∃ cf, countFactorsFor w a b area = .ok cf ∧
+      List.Forall₂ (fun x y => ∃ s ∈ mkSamples w cf vega, R s x y) f g := by
+  unfold convertFlux at h
+  rw [if_neg hab] at h
+  cases hcf : countFactorsFor w a b area with
+  | error e => rw [hcf] at h; cases h
+  | ok cf =>
+    rw [hcf] at h
+    replace h : convertAll P T a b (mkSamples w cf vega) f = .ok g := h
+    have hl' : f.length ≤ (mkSamples w cf vega).length := by rw [mkSamples_length]; exact hl
+    exact ⟨convertAll_length _ f g hl' h, cf, rfl, convertAll_forall₂ R hR _ f g hl' h⟩
+
+/-! ## deepening: unit names -/
+
+/-- every name of the table regenerated from `validate_unit` is accepted in any letter case and
+resolves to the unit of its own entry, whatever astropy makes of the string -/
+theorem unit_table_any_case (astro : Astro) :
+    ∀ p ∈ Generated.unitNameTable, ∀ s : String, s.toLower = p.1 →
+      validateUnit astro (.str s) = .ok p.2 :=
+  fun p hp s hs => validateUnit_of_table astro s p.1 p.2 hs (unitNameTable_lookup_self p hp)
+
+/-- the flux-unit names of the property (and the `mag(..)` spellings) denote, in any letter case,
+the flux unit of that name -/
+theorem flux_unit_names (astro : Astro) :
+    ∀ p ∈ (fluxNameTable : List (String × FluxUnit K)), ∀ s : String, s.toLower = p.1 →
+      ∃ id, validateUnit astro (.str s) = .ok id ∧ fluxUnitOfId id = some p.2 := by
+  intro p hp s hs
+  have key : ∀ (n id : String) (u : FluxUnit K), Generated.unitNameTable.lookup n = some id →
+      fluxUnitOfId id = some u → s.toLower = n →
+      ∃ id, validateUnit astro (.str s) = .ok id ∧ fluxUnitOfId id = some u :=
+    fun n id u h1 h2 hs => ⟨id, validateUnit_of_table astro s n id hs h1, h2⟩
+  simp only [fluxNameTable, List.mem_cons, List.not_mem_nil, or_false] at hp
+  rcases hp with rfl | rfl | rfl | rfl | rfl | rfl | rfl | rfl | rfl | rfl | rfl | rfl | rfl
+  · exact key "photlam" "PHOTLAM" _ (by decide) rfl hs
+  · exact key "photnu" "PHOTNU" _ (by decide) rfl hs
+  · exact key "flam" "FLAM" _ (by decide) rfl hs
+  · exact key "fnu" "FNU" _ (by decide) rfl hs
+  · exact key "jy" "Jy" _ (by decide) rfl hs
+  · exact key "stmag" "mag(ST)" _ (by decide) rfl hs
+  · exact key "abmag" "mag(AB)" _ (by decide) rfl hs
+  · exact key "obmag" "mag(OB)" _ (by decide) rfl hs
+  · exact key "vegamag" "mag(VEGA)" _ (by decide) rfl hs
+  · exact key "mag(st)" "mag(ST)" _ (by decide) rfl hs
+  · exact key "mag(ab)" "mag(AB)" _ (by decide) rfl hs
+  · exact key "mag(ob)" "mag(OB)" _ (by decide) rfl hs
+  · exact key "mag(vega)" "mag(VEGA)" _ (by decide) rfl hs
+
+/-! ## non-vacuity of the deepened theorems (ℝ with the real functions; `exP`: h = 1, c = 2, zero
+points 1, 1 Jy = 1/10 FNU; `exS`: λ = 2, count factor 3, Vega flux 5) -/
+section examples
+open Transc
+
+example : convertOne exP real exS .photlam .flam 4 = ofPhotlam exP real exS .flam 4 :=
+  (photlam_hub .flam (by simp) 4).1
+example : ofPhotlam exP real exS .fnu 4 = .ok (4 * 1 * 2) := fnu_closed exP_pos exS_pos 4
+example : convertOne exP real exS .flam .fnu 3 = .ok (3 * 2 ^ 2 / 2) := flam_to_fnu exP_pos exS_pos 3
+example : convertOne exP real exS .photnu .fnu 3 = .ok (3 * (1 * 2) / 2) := photnu_to_fnu exP_pos exS_pos 3
+example : ofPhotlam exP real exS (.jy 2) 3 = .ok (3 * (1 * 2) / 2 * 2 ^ 2 / 2 / (2 * (1/10))) := jy_def 2 3
+example : convertOne exP real exS .fnu (.jy 2) 3 = .ok (3 / (2 * (1/10))) :=
+  (fnu_jy_scale exP_pos exS_pos 2 (by norm_num) 3).1
+example : convertOne exP real exS .flam .stmag 10 = .ok (-(5/2) * real.log10 10 - 0) :=
+  flam_to_stmag exP_pos real_lawful exS_pos 0 exP_stZero 10 (by norm_num)
+example : convertOne exP real exS .fnu .abmag 10 = .ok (-(5/2) * real.log10 10 - 0) :=
+  fnu_to_abmag exP_pos real_lawful exS_pos 0 exP_abZero 10 (by norm_num)
+example : convertOne exP real exS .count .obmag 7 = .ok (-(5/2) * real.log10 7) :=
+  count_to_obmag exS_pos 3 rfl 7 (by norm_num)
+example : convertOne exP real exS .photlam .vegamag 5 = .ok 0 :=
+  vega_has_vegamag_zero real_lawful exS_pos 5 rfl
+
+/-- linear units: FLAM → FNU at λ = 2, c = 2 doubles the value -/
+example : ∃ k : ℝ, 0 < k ∧ ∀ f, convertOne exP real exS .flam .fnu f = .ok (k * f) :=
+  linear_units_scale exP_pos real_lawful exS_pos .flam .fnu trivial trivial rfl rfl
+    (flam_to_fnu exP_pos exS_pos 3)
+example : convertOne exP real exS .flam .fnu (2 * 3 + 7 * 5) = .ok (2 * (3 * 2 ^ 2 / 2) + 7 * (5 * 2 ^ 2 / 2)) :=
+  convert_linear exP_pos real_lawful exS_pos .flam .fnu trivial trivial rfl rfl 2 7
+    (flam_to_fnu exP_pos exS_pos 3) (flam_to_fnu exP_pos exS_pos 5)
+example : (3 : ℝ) * 2 ^ 2 / 2 < 5 * 2 ^ 2 / 2 :=
+  convert_linear_strictMono exP_pos real_lawful exS_pos .flam .fnu trivial trivial rfl rfl
+    (by norm_num : (3 : ℝ) < 5) (flam_to_fnu exP_pos exS_pos 3) (flam_to_fnu exP_pos exS_pos 5)
+
+/-- ten times the flux: a smaller STmag -/
+example : -(5/2) * real.log10 10 - 0 < -(5/2) * real.log10 1 - 0 :=
+  brighter_smaller_mag exP_pos real_lawful logMono_real exS_pos .flam .stmag trivial trivial rfl rfl
+    (by norm_num : (1 : ℝ) < 10)
+    (flam_to_stmag exP_pos real_lawful exS_pos 0 exP_stZero 1 (by norm_num))
+    (flam_to_stmag exP_pos real_lawful exS_pos 0 exP_stZero 10 (by norm_num))
+
+/-- and back: the larger of these two magnitudes is the smaller flux -/
+example : (1 : ℝ) < 10 := by
+  have h1 := flam_to_stmag exP_pos real_lawful exS_pos 0 exP_stZero 1 (by norm_num)
+  have h10 := flam_to_stmag exP_pos real_lawful exS_pos 0 exP_stZero 10 (by norm_num)
+  have hlt := brighter_smaller_mag exP_pos real_lawful logMono_real exS_pos .flam .stmag trivial trivial
+    rfl rfl (by norm_num : (1 : ℝ) < 10) h1 h10
+  exact larger_mag_fainter exP_pos real_lawful logMono_real exS_pos .stmag .flam trivial trivial rfl rfl hlt
+    (convert_roundtrip exP_pos real_lawful exS_pos .flam .stmag trivial trivial h10)
+    (convert_roundtrip exP_pos real_lawful exS_pos .flam .stmag trivial trivial h1)
+
+example : -(5/2) * real.log10 10 - 0 < -(5/2) * real.log10 1 - 0 :=
+  brighter_smaller_mag_real exP_pos exS_pos .flam .stmag trivial trivial rfl rfl (by norm_num : (1 : ℝ) < 10)
+    (flam_to_stmag exP_pos real_lawful exS_pos 0 exP_stZero 1 (by norm_num))
+    (flam_to_stmag exP_pos real_lawful exS_pos 0 exP_stZero 10 (by norm_num))
+example : (1 : ℝ) < 10 := by
+  have h1 := flam_to_stmag exP_pos real_lawful exS_pos 0 exP_stZero 1 (by norm_num)
+  have h10 := flam_to_stmag exP_pos real_lawful exS_pos 0 exP_stZero 10 (by norm_num)
+  exact larger_mag_fainter_real exP_pos exS_pos .stmag .flam trivial trivial rfl rfl
+    (brighter_smaller_mag_real exP_pos exS_pos .flam .stmag trivial trivial rfl rfl (by norm_num : (1 : ℝ) < 10) h1 h10)
+    (convert_roundtrip exP_pos real_lawful exS_pos .flam .stmag trivial trivial h10)
+    (convert_roundtrip exP_pos real_lawful exS_pos .flam .stmag trivial trivial h1)
+
+example : ∃ d : ℝ, ∀ m, convertOne exP real exS .stmag .abmag m = .ok (m + d) := by
+  obtain ⟨y, hy⟩ := mag_to_mag_defined exP_pos real_lawful exS_pos .stmag .abmag trivial trivial rfl rfl
+    rfl rfl 0
+  exact mag_to_mag_offset exP_pos real_lawful exS_pos .stmag .abmag trivial trivial rfl rfl hy
+
+example : convertOne exP real exS .flam .stmag (100 * 10) =
+    .ok (-(5/2) * real.log10 10 - 0 + -(5/2) * real.log10 100) :=
+  flux_scale_shifts_mag exP_pos real_lawful exS_pos .flam .stmag trivial trivial rfl rfl (by norm_num)
+    (flam_to_stmag exP_pos real_lawful exS_pos 0 exP_stZero 10 (by norm_num))
+
+/-- same unit: count → count without an area, on a sample that has none -/
+example : convertOne exP real exS0 .count .count 7 = .ok 7 := same_unit_identity .count 7
+example : convertFlux exP real [3, 1, 2] [7, 8, 9] .obmag .obmag none none = .ok [7, 8, 9] :=
+  convertFlux_same_unit .obmag _ _ none none
+example : convertOne exP real exS0 .photlam .count 7 = .error .synphotError :=
+  needs_area_synphotError .photlam .count (by simp) rfl (Or.inr rfl) 7
+example : convertOne exP real exS0 .vegamag .flam 7 = .error .synphotError :=
+  needs_vega_synphotError .vegamag .flam (by simp) rfl (Or.inl rfl) 7
+example : Err.synphotError = .synphotError ∨ (Err.synphotError = .nan ∧ (FluxUnit.count : FluxUnit ℝ).isMag = true) :=
+  convertOne_errors .photlam .count 7 _
+    (needs_area_synphotError (P := exP) (T := real) (s := exS0) .photlam .count (by simp) rfl (Or.inr rfl) 7)
+
+/-- count factors of the wavelengths 1, 2, 4 with area 2 (`exCF`) -/
+example : (∃ cf, countFactors ([1, 2, 4] : List ℚ) 2 = .ok cf) ↔
+    (2 ≤ ([1, 2, 4] : List ℚ).length ∧ validateWavelengths ([1, 2, 4] : List ℚ) = .ok ()) :=
+  countFactors_ok_iff _ 2
+example : ([2, 3, 4] : List ℚ).length = ([1, 2, 4] : List ℚ).length :=
+  countFactors_length _ _ 2 exCF
+example : ∀ x ∈ ([2, 3, 4] : List ℚ), 0 < x := countFactors_pos [1, 2, 4] _ 2 (by norm_num) exCF
+example : countFactors ([4, 2, 1] : List ℚ) 2 = .ok [4, 3, 2] := by
+  have h := countFactors_reverse ([1, 2, 4] : List ℚ) 2
+  rw [exCF] at h; exact h
+example : countFactors ([1, 2, 4] : List ℚ) (5 * 2) = .ok [5 * 2, 5 * 3, 5 * 4] :=
+  countFactors_area _ _ 2 5 exCF
+
+/-- arrays: PHOTLAM → count → PHOTLAM on the wavelengths 1, 2, 4 with area 2 -/
+theorem exInputs : InputsPos ([1, 2, 4] : List ℝ) (some 2) none :=
+  ⟨by intro x hx; simp at hx; rcases hx with rfl | rfl | rfl <;> norm_num,
+   by intro A hA; injection hA with hA; subst hA; norm_num, by intro l hl; cases hl⟩
+
+theorem exCounts : convertFlux exP real [1, 2, 4] [1, 1, 1] .photlam .count (some 2) none = .ok [1 * 2, 1 * 3, 1 * 4] := by
+  have : countFactorsFor ([1, 2, 4] : List ℝ) .photlam .count (some 2) = .ok (some [2, 3, 4]) := by
+    simp [countFactorsFor, FluxUnit.needsArea, exCF, Except.map]
+  simp [convertFlux, this, bind, Except.bind, mkSamples, convertAll, convertOne, toPhotlam, ofPhotlam,
+    pure, Except.pure]
+
+example : convertFlux exP real [1, 2, 4] [1 * 2, 1 * 3, 1 * 4] .count .photlam (some 2) none = .ok [1, 1, 1] :=
+  convertFlux_roundtrip exP_pos real_lawful .photlam .count trivial trivial _ _ _ _ _ exInputs (by simp) exCounts
+
+/-- PHOTLAM → count → FLAM = PHOTLAM → FLAM (the direct call computes no count factors at all) -/
+example (y : List ℝ)
+    (h2 : convertFlux exP real [1, 2, 4] [1 * 2, 1 * 3, 1 * 4] .count .flam (some 2) none = .ok y) :
+    convertFlux exP real [1, 2, 4] [1, 1, 1] .photlam .flam (some 2) none = .ok y :=
+  convertFlux_path_indep exP_pos real_lawful .photlam .flam .count trivial trivial trivial _ _ _ _ _ _
+    exInputs (by simp) exCounts h2
+example : convertFlux exP real [1, 2, 4] [1 * 2, 1 * 3, 1 * 4] .count .flam (some 2) none =
+    .ok [1 * 2 / 2 * (1 * 2) / 1, 1 * 3 / 3 * (1 * 2) / 2, 1 * 4 / 4 * (1 * 2) / 4] := by
+  have : countFactorsFor ([1, 2, 4] : List ℝ) .count .flam (some 2) = .ok (some [2, 3, 4]) := by
+    simp [countFactorsFor, FluxUnit.needsArea, exCF, Except.map]
+  simp [convertFlux, this, bind, Except.bind, mkSamples, convertAll, convertOne, toPhotlam, ofPhotlam,
+    pure, Except.pure, exP]
+
+/-- descending wavelengths: the reversed counts -/
+example : convertFlux exP real [4, 2, 1] [1, 1, 1] .photlam .count (some 2) none = .ok [1 * 4, 1 * 3, 1 * 2] :=
+  convertFlux_reverse .photlam .count [1, 2, 4] [1, 1, 1] _ (some 2) none rfl (by intro l hl; cases hl) exCounts
+
+/-- every count is positive where the flux is (an element-wise law along the arrays) -/
+example : ([1 * 2, 1 * 3, 1 * 4] : List ℝ).length = ([1, 1, 1] : List ℝ).length :=
+  (convertFlux_elementwise (P := exP) (T := real) .photlam .count (by simp) [1, 2, 4] [1, 1, 1] _ (some 2) none
+    (by simp) (fun _ _ _ => True) (fun _ _ _ _ => trivial) exCounts).1
+
+/-- names: any letter case -/
+example (astro : Astro) : validateUnit astro (.str "InverseMicrons") = .ok "1 / micron" :=
+  unit_table_any_case astro ("inversemicrons", "1 / micron") (by decide) "InverseMicrons" (by decide +kernel)
+example (astro : Astro) : ∃ id, validateUnit astro (.str "VegaMag") = .ok id ∧
+    fluxUnitOfId (K := ℚ) id = some .vegamag :=
+  flux_unit_names astro ("vegamag", .vegamag) (by simp [fluxNameTable]) "VegaMag" (by decide +kernel)
+
+end examples
 
 end Synphot.C01
